@@ -42,7 +42,7 @@ Absent == [p |-> FALSE]
 Mk(c, e, cap, stv, al) ==
   LET n == NOf(cfg, c) IN
   [p |-> TRUE, e |-> e, sz |-> Len(e), cap |-> cap, st |-> stv, al |-> al,
-   inl |-> (stv = 0), inlb |-> (Len(e) <= n), max |-> MaxSize, icap |-> n, ok |-> TRUE]
+   inl |-> (stv = 0), inlb |-> (Len(e) <= n), max |-> MaxSize, icap |-> n, ok |-> TRUE, nm |-> TRUE]
 
 Canon(len) == [i \in 1..len |-> <<i, 0>>]
 
